@@ -594,6 +594,10 @@ def eval_model(exprs, tag, per_file=150):
 
 
 def tol_for(name, dt):
+    if name in ("Krum", "TrimmedMean", "Mean", "Sum", "Constant"):
+        # selections and fixed-weight averages are exact up to a few ulps of the largest entry; a generic
+        # tolerance hides the choice of a different row among rows that lie close together
+        return {"f64": 1e-12, "f32": 5e-6}[dt]
     base = {"f64": 1e-7, "f32": 3e-3}[dt]
     if name == "CAGrad":
         base = max(base, 2e-4)
